@@ -47,6 +47,27 @@ def nonstrictFlagged (c : Curve) (value : Option Nat) : Bool :=
     `k < prime_size - 1` -/
 def rangeChecked (c : Curve) (k : Nat) : Bool := decide (k < primeBits c - 1)
 
+/-- an instantiation `T(args)`: the template name and, per argument, the value constant propagation knows (if any) -/
+structure Inst where
+  name : String
+  args : List (Option Nat)
+  deriving DecidableEq, Repr
+
+/-- what the two passes that look at instantiations report for one of them (`visit_statement` of `bn254_specific_circuit.rs` and of
+    `nonstrict_binary_conversion.rs`): the report ids -/
+def instReports (c : Curve) (i : Inst) : List String :=
+  (if flagged c i.name then ["CS0016"] else []) ++
+  (match i.args with
+   | [a] => if (i.name == "Num2Bits" || i.name == "Bits2Num") && nonstrictFlagged c a then ["CS0010"] else []
+   | _ => [])
+
+/-- the instantiations of a program: those in the bodies of the analysed templates and — since the `fix:` 1121aa8, which runs the two
+    passes on the statement `component main = T(...)` — the one of the main component -/
+def programInsts (bodies : List (List Inst)) (main : Option Inst) : List Inst := bodies.flatten ++ main.toList
+
+def programReports (c : Curve) (bodies : List (List Inst)) (main : Option Inst) : List (Inst × List String) :=
+  (programInsts bodies main).map (fun i => (i, instReports c i))
+
 def curveOfTag : String → Option Curve
   | "Bn254" => some .bn254
   | "Bls12_381" => some .bls12381
